@@ -119,6 +119,57 @@ pub fn staking_transcript(case: &e4_staking::Case) -> Vec<String> {
     t
 }
 
+/// Two instances fed the same staking program operation by operation in lock-step (the first instance first for even
+/// steps, the second first for odd ones): same validators, same block times, same delegators on one thread.
+pub fn staking_lockstep(case: &e4_staking::Case) -> (Vec<String>, Vec<String>) {
+    let mut insts = [e4_staking::Inst::new(&case.params), e4_staking::Inst::new(&case.params)];
+    let mut ts: [Vec<String>; 2] = [vec![], vec![]];
+    for (i, op) in case.ops.iter().enumerate() {
+        for k in 0..2 {
+            let which = (i + k) % 2;
+            let inst = &mut insts[which];
+            let r = inst.exec(op, false);
+            ts[which].push(match r {
+                Ok(Ok(())) => "ok".to_string(),
+                Ok(Err(_)) => "err".to_string(),
+                Err(_) => "panic".to_string(),
+            });
+            for d in 0..3 {
+                for v in e4_staking::validators(&case.params) {
+                    ts[which].push(format!("{:?}", inst.delegation(d, &v).ok()));
+                }
+            }
+        }
+    }
+    for which in 0..2 {
+        let raw = rawstate::dump(insts[which].app.storage());
+        ts[which].push(format!("final-storage {}", raw.iter().map(|(k, v)| format!("{}={}", hex(k), hex(v))).collect::<Vec<_>>().join(",")));
+    }
+    let [a, b] = ts;
+    (a, b)
+}
+
+/// The same for bank programs.
+pub fn bank_lockstep(case: &e3_bank::Case) -> (Vec<String>, Vec<String>) {
+    let mut ws = [e3_bank::World::for_case(case), e3_bank::World::for_case(case)];
+    let mut scratch = Report::new();
+    let mut ts: [Vec<String>; 2] = [vec![], vec![]];
+    for (i, op) in case.ops.iter().enumerate() {
+        for k in 0..2 {
+            let which = (i + k) % 2;
+            let before = ws[which].log.len();
+            let _ = e3_bank::apply(&mut ws[which], op, &mut scratch);
+            ts[which].push(format!("{:?}", ws[which].log.get(before)));
+        }
+    }
+    for which in 0..2 {
+        let raw = rawstate::dump(ws[which].app.storage());
+        ts[which].push(format!("final-storage {}", raw.iter().map(|(k, v)| format!("{}={}", hex(k), hex(v))).collect::<Vec<_>>().join(",")));
+    }
+    let [a, b] = ts;
+    (a, b)
+}
+
 pub fn bank_history(seed: u64, i: u64) -> e3_bank::Case {
     let mut rng = Rng::new(derive(seed, "C19-bank", 0, i));
     let mut scratch = Report::new();
